@@ -2,6 +2,8 @@
 import json,sys
 pid=sys.argv[1]
 k0=int(sys.argv[2]) if len(sys.argv)>2 else 1
+focus=sys.argv[3] if len(sys.argv)>3 else ''
+FOCUS={'':'','wide':"\nFOCUS OF THIS ROUND: pick sites a reviewer who stares at the listed mechanisms would overlook — callers and helpers of those mechanisms, sibling implementations (the batch form vs the stream form, other node kinds or back ends that share the mechanism), constructors, defaults and validation, cleanup and error paths, and contracts that span two files. At most ONE of your three changes may lie inside the line ranges listed under Mechanisms; the others must be elsewhere and still break THIS property.\n"}[focus]
 for l in open('/verif/properties.jsonl'):
     p=json.loads(l)
     if p['id']==pid: break
@@ -22,7 +24,7 @@ Produce up to THREE independent source changes to kapacitor (non-test .go files)
  (b) the pinned existing test suite still passes, unedited:
      cd {wt} && go test -vet=off -count=1 ./alert/... ./auth/... ./clock/... ./services/bigpanda/... ./services/config/override/... ./services/httppost/... ./tick/... ./timer/... ./udf/agent/... ./waiter/...
  (c) the breakage needs something SPECIFIC to manifest — a particular interleaving, a crash/fault at a particular point, a multi-step sequence of operations, an unusual input or configuration, or two cooperating sites that each look fine alone — NOT something ordinary use would expose at once. Prefer realistic bugs a tired maintainer could plausibly introduce (a dropped copy, a weakened guard, a reordered step, a swapped argument, an off-by-one, a missing lock, an error swallowed, a table entry mis-keyed, ...), small (1-15 changed lines), and subtle. Make the three changes different in kind and in location.
-For EACH change also write a demonstration: a new Go test file (or small program) that FAILS with the change applied and PASSES on the untouched tree. 
+{FOCUS}For EACH change also write a demonstration: a new Go test file (or small program) that FAILS with the change applied and PASSES on the untouched tree. 
 
 PRACTICALITIES (the sandbox is offline)
 - Many packages import libflux (cgo). A link-only stub exists: to build/run tests of ANY package (root package, ./integrations, ./edge, ./pipeline, ./services/..., ./server) use
